@@ -41,6 +41,7 @@ MODELS = [
     "AD:extended_tube", "AD:blatz_ko", "AD:lopez_pamies", "AD:storakers", "AD:anssari_benam_bucchi", "AD:alexander", "AD:miehe_goektepe_lulei",
     "ThreeField", "NearlyIncompressible", "NearlyIncompressibleAD", "Composite",
 ]
+JAX_MODELS = ["JAX:neo_hooke", "JAX:mooney_rivlin", "JAX:yeoh", "JAX:third_order_deformation", "JAX:blatz_ko", "JAX:storakers", "JAX:extended_tube", "JAX:miehe_goektepe_lulei"]
 HISTORY = ("OgdenRoxburgh", "OgdenRoxburghAD", "Plastic", "Visco")
 MIXED = ("ThreeField", "NearlyIncompressible", "NearlyIncompressibleAD")
 
@@ -71,6 +72,9 @@ def draw_model(r, name):
         return {"name": name, "p": {"mu": mu, "bulk": bulk}}
     if name == "NearlyIncompressibleAD":
         return {"name": name, "p": {"fun": "mooney_rivlin", "C10": round(mu / 3, 4), "C01": round(mu / 6, 4), "bulk": bulk}}
+    if name.startswith("JAX:"):
+        d = draw_model(r, "AD:" + name[4:])
+        return {"name": name, "p": d["p"]}
     if name == "Composite":
         return {"name": "AD:yeoh", "p": {"C10": round(mu / 2, 4), "C20": rf(r, -0.05, 0.05), "C30": rf(r, 0, 0.05), "bulk": bulk}}
     ad = {
@@ -100,6 +104,9 @@ def generate(seed, tier, k):
         doc["c03"] = {"mode": "job", "probe_seed": r.randrange(1 << 30), "rate": 0.25}
         return doc
     name = r.choice(MODELS + list(HISTORY) * 2)
+    # jax models cost ~2 s of jit per run: a few in the quick tier, a fifth of the thorough tier
+    if r.random() < (0.2 if tier == "thorough" else 0.01):
+        name = r.choice(JAX_MODELS)
     spec = draw_model(r, name)
     nops = r.choice([6, 10, 16, 24])
     amp = r.choice([0.05, 0.1, 0.2, 0.3])
@@ -127,7 +134,7 @@ def generate(seed, tier, k):
         "c03": {"mode": "point", "probe_seed": r.randrange(1 << 30)},
         "umat": spec,
         "model": name,
-        "batch": [r.choice([1, 2, 3]), r.choice([1, 2, 4])],
+        "batch": [2, 3] if name.startswith("JAX:") else [r.choice([1, 2, 3]), r.choice([1, 2, 4])],
         "H_seed": r.randrange(1 << 30),
         "amp": amp,
         "ops": ops,
@@ -143,6 +150,14 @@ def build(spec):
     p = dict(spec.get("p", {}))
     if name == "Volumetric":
         return fem.Volumetric(bulk=p["bulk"], parallel=bool(spec.get("parallel")))
+    if name.startswith("JAX:"):
+        import felupe.constitution.jax as fj
+
+        bulk = p.pop("bulk", None)
+        um = fj.Hyperelastic(getattr(fj.models.hyperelastic, name[4:]), **p)
+        if bulk is not None:
+            um = um & fem.Volumetric(bulk=bulk)
+        return um
     return world.build_umat(spec)
 
 
@@ -485,7 +500,7 @@ def shrink(doc):
         d = copy.deepcopy(doc)
         d["ops"].pop(i)
         out.append(d)
-    if doc["batch"] != [1, 1]:
+    if doc["batch"] != [1, 1] and not doc["model"].startswith("JAX:"):
         d = copy.deepcopy(doc)
         d["batch"] = [1, 1]
         out.append(d)
